@@ -17,7 +17,7 @@ const c20Mutex = "global:cmd/collector.mutex"
 func init() {
 	register(&propDef{
 		ID:          "C20",
-		Explanation: "Structural conditions of the standalone collector's bounded window, decided from cmd/collector: (1) R-LOCK: the store (global flowRecords) and every alias of its contents (the queried sub-slice) is only accessed under the global mutex, in the mode needed; lock-balanced exits; (2) R-OWNER: only the add, query and reset functions touch the store; (3) cap shape: the add function evicts exactly when len >= maxFlowRecords (normalised comparison against the constant), the eviction is s = s[1:] (front, exactly one), and every path through the locked region ends with exactly one append of the rendered entry => by the ±1 argument len never exceeds the cap and arrival order is preserved; (4) query: the count is clamped into [0,len] by comparisons against 0 and len(store) before the suffix slice s[len-count:] (no high bound); every 4xx reply is sent on a path that never reaches the lock/store; reset stores an empty slice; (5) rendering: the loops over records and elements contain no break/continue/return; R-SWITCH/R-GETTER: the data-type switch has an explicit case for every data type the decoder supports, each using an accessor declared by that type's concrete element. (6) a parsed count is used only under err == nil and count >= 0; the text branch writes each stored entry with Write (never as a format); a lockset difference at a join (lock held on one branch only) is reported unless a deferred unlock sits next to the acquisition. Not decided: HTTP/JSON behaviour, equality of rendered text and values. Later additions: both formats are built from the window; the query path reads no mutable package state but the store (pure counters excepted); every return of the add function follows the insertion; a non-decimal parse of the count is refused. Round-five additions: a count is refused only for a parse error or a negative value; the query handler reads entries through the window only. Round-six additions: the decoder makes one element slice per record; the count clamp is decided on enumerated paths (a requested count within range is never replaced by the whole store).",
+		Explanation: "Structural conditions of the standalone collector's bounded window, decided from cmd/collector: (1) R-LOCK: the store (global flowRecords) and every alias of its contents (the queried sub-slice) is only accessed under the global mutex, in the mode needed; lock-balanced exits; (2) R-OWNER: only the add, query and reset functions touch the store; (3) cap shape: the add function evicts exactly when len >= maxFlowRecords (normalised comparison against the constant), the eviction is s = s[1:] (front, exactly one), and every path through the locked region ends with exactly one append of the rendered entry => by the ±1 argument len never exceeds the cap and arrival order is preserved; (4) query: the count is clamped into [0,len] by comparisons against 0 and len(store) before the suffix slice s[len-count:] (no high bound); every 4xx reply is sent on a path that never reaches the lock/store; reset stores an empty slice; (5) rendering: the loops over records and elements contain no break/continue/return; R-SWITCH/R-GETTER: the data-type switch has an explicit case for every data type the decoder supports, each using an accessor declared by that type's concrete element. (6) a parsed count is used only under err == nil and count >= 0; the text branch writes each stored entry with Write (never as a format); a lockset difference at a join (lock held on one branch only) is reported unless a deferred unlock sits next to the acquisition. Not decided: HTTP/JSON behaviour, equality of rendered text and values. Later additions: both formats are built from the window; the query path reads no mutable package state but the store (pure counters excepted); every return of the add function follows the insertion; a non-decimal parse of the count is refused. Round-five additions: a count is refused only for a parse error or a negative value; the query handler reads entries through the window only. Round-six additions: the decoder makes one element slice per record; the count clamp is decided on enumerated paths (a requested count within range is never replaced by the whole store). Round-seven additions: the add function reads no package state that changes at run time (an entry is a function of its message; a per-template-id render cache is reported); the render rule accepts the value form (each case yields the value, one print writes name and value) and index loops.",
 		Assume:      []string{"net/http handler contract", "fmt renders what it is given"},
 		Run:         runC20,
 	})
